@@ -306,6 +306,11 @@ class OpaqueSignature(Signature):
     def __sig__(self):
         return self.data
 
+    def __copy__(self):
+        sig = self.__class__()
+        sig.data = bytearray(self.data)
+        return sig
+
     def parse(self, packet):
         self.data = packet
 
@@ -456,6 +461,11 @@ class OpaquePubKey(PubKey):  # pragma: no cover
 
     def __bytearray__(self):
         return self.data
+
+    def __copy__(self):
+        pk = self.__class__()
+        pk.data = bytearray(self.data)
+        return pk
 
     def parse(self, packet):
         ##TODO: this needs to be length-bounded to the end of the packet
